@@ -144,6 +144,25 @@ _k('rv_nan', 'rec_nan')(lambda r: _math.nan if r.v % 3 == 0 else r.v % 3)       
 _k('rv_nan_fresh', 'rec_nan')(lambda r: float('nan') if r.v % 2 == 0 else 1.0)     # a new nan object every time
 _k('rv_nanfresh_none', 'rec')(lambda r: float('nan') if r.v % 3 == 0 else (None if r.v % 3 == 1 else 1.0))   # a new nan object each time: its own group under ==
 _k('rv_hashcol', 'rec')(lambda r: [-1, -2, 0, '', 2305843009213693951, (0, -1), (0, -2)][r.v % 7])   # different keys, equal hashes
+class Plain(object):
+    """a plain object: equal to itself only (no __eq__), hashable by identity - e.g. a shared session/device object"""
+    __slots__ = ('tag',)
+
+    def __init__(self, tag):
+        self.tag = tag
+
+    def __repr__(self):
+        return 'Plain(%d)' % self.tag
+
+    def __canon__(self):
+        return ('plain', self.tag)
+
+    def __deepcopy__(self, memo):
+        return Plain(self.tag)        # a copy is another object: not equal to the original
+
+
+_PLAIN = [Plain(0), Plain(1), Plain(2)]
+_k('rv_obj', 'rec')(lambda r: _PLAIN[r.v % 3])          # the very same object for equal predicate values; a copy would differ
 # an impure key mapper (round-robin sharding: the answer does not depend on the item).  The builder creates a fresh
 # counter per pipeline and records every answer; the partition model uses the recorded answers (one call per item)
 _k('rr3', 'rec_impure')(lambda r: 0)
@@ -237,6 +256,7 @@ SEEDS = {
     'f0': (lambda: 0.0, 'float', False),
     'f1': (lambda: 1.0, 'float', False),
     'fm0': (lambda: -0.0, 'float', False),
+    'npf0': (lambda: _np.float64(0.0), 'float', False),     # type(seed) is numpy.float64: kept in an object list, stays a numpy scalar
     'bF': (lambda: False, 'bool', False),
     'l_val': (lambda: [], 'list', False),          # value seed (a fresh [] per pipeline build)
     'l_fac': (lambda: list, 'list', True),         # factory seed
